@@ -26,17 +26,80 @@ def block_obs(tier):
     obs.append(k('R_d', None, 'tacts i = 1..8, all (a,b,c,d) and all theta (2^384 inputs each)', ['macro R', 'subkey_d'],
                  instances=[('h_Rd_%d' % i, '%d, 1' % i) for i in range(1, 9)], timeout=400))
     ufn = ['G5/G13/G21 uninterpreted (harness-local)']
-    obs.append(k('wire_E', 'h_wireE', 'all blocks, all keys, all G functions', ['macro E', 'macro R', 'subkey_e'], stubs=ufn, replay='none'))
-    obs.append(k('wire_D', 'h_wireD', 'all blocks, all keys, all G functions', ['macro D', 'macro R', 'subkey_d'], stubs=ufn, replay='none'))
-    obs.append(k('inv_DE', 'h_invDE', 'all blocks, all keys, all G functions', ['macro E', 'macro D'], stubs=ufn, replay='none'))
-    obs.append(k('inv_ED', 'h_invED', 'all blocks, all keys, all G functions', ['macro E', 'macro D'], stubs=ufn, replay='none'))
+    obs.append(k('wire_E', 'h_wireE', 'all blocks, all keys, all G functions', ['macro E', 'macro R', 'subkey_e'], stubs=ufn, replay='none', backend=['z3', 'cadical']))
+    obs.append(k('wire_D', 'h_wireD', 'all blocks, all keys, all G functions', ['macro D', 'macro R', 'subkey_d'], stubs=ufn, replay='none', backend=['z3', 'cadical']))
+    obs.append(k('inv_DE', 'h_invDE', 'all blocks, all keys, all G functions', ['macro E', 'macro D'], stubs=ufn, replay='none', backend=['z3', 'cadical']))
+    obs.append(k('inv_ED', 'h_invED', 'all blocks, all keys, all G functions', ['macro E', 'macro D'], stubs=ufn, replay='none', backend=['z3', 'cadical']))
     for fn, nm in ((1, ''), (2, '2'), (3, '3')):
-        obs.append(k('fn_Encr%s' % nm, 'h_fn_E', 'all blocks, all keys', ['beltBlockEncr' + nm], defs=['FN=%d' % fn]))
-        obs.append(k('fn_Decr%s' % nm, 'h_fn_D', 'all blocks, all keys', ['beltBlockDecr' + nm], defs=['FN=%d' % fn]))
+        obs.append(k('fn_Encr%s' % nm, 'h_fn_E', 'all blocks, all keys', ['beltBlockEncr' + nm], defs=['FN=%d' % fn], backend=['z3', 'cvc5']))
+        obs.append(k('fn_Decr%s' % nm, 'h_fn_D', 'all blocks, all keys', ['beltBlockDecr' + nm], defs=['FN=%d' % fn], backend=['z3', 'cvc5']))
+    return obs
+
+
+def lcl_obs(tier):
+    obs = []
+    H = 'harness/C01/lcl.c'
+    LCL = CORE + [B + 'belt_lcl.c', 'src/math/ww.c', 'src/math/pp/pp_mul.c', 'src/math/pp/pp_red.c', 'src/math/pp/pp_etc.c']
+    def k(name, entry, word, bound, funcs, **kw):
+        d = dict(name='c01_lcl_%s_w%d' % (name, word), harness=H, entry=entry, word=word, srcs=LCL, unwind=140, timeout=300,
+                 backend=['cadical', 'kissat'], bound=bound + ', B_PER_W=%d, B_PER_S=64' % word, funcs=funcs)
+        d.update(kw)
+        return Ob(**d)
+    for w in (64, 32):
+        obs.append(k('addbits', 'h_addbits', w, 'all 2^128 blocks x all 2^64 counts', ['beltBlockAddBitSizeU32']))
+        obs.append(k('addbits_half', 'h_addbits_half', w, 'all 2^64 half blocks x all 2^64 counts', ['beltHalfBlockAddBitSizeW']))
+        obs.append(k('inc', 'h_inc', w, 'all 2^128 blocks', ['beltBlockIncU32']))
+        obs.append(k('mulc', 'h_mulc', w, 'all 2^128 blocks', ['beltBlockMulC']))
+        obs.append(k('macros', 'h_macros', w, 'all pairs of blocks', ['beltBlockXor', 'beltBlockXor2', 'beltBlockNeg', 'beltBlockCopy', 'beltBlockSetZero', 'beltHalfBlockIsZero']))
+        obs.append(k('polymul', 'h_polymul', w, 'all pairs of field elements', ['beltPolyMul', 'ppMul', 'ppRedBelt'], timeout=300, backend=['cadical', 'kissat', 'z3']))
+    KX = 'harness/C01/keyexp.c'
+    inst = []
+    for ln in (16, 24, 32):
+        for which in (1, 2):
+            for nm, ok_, oo in (('same', 32, 32), ('keyhi', 40, 32), ('keylo', 24, 32), ('keylo4', 28, 32), ('keyhi4', 36, 32), ('disj', 0, 48), ('adj', 0, 32)):
+                inst.append(('h_kx%d_%d_%s' % (which, ln, nm), '%d, %d, %d, %d' % (ln, which, ok_, oo)))
+    obs.append(Ob(name='c01_keyexpand', harness=KX, instances=inst, srcs=CORE + [B + 'belt_block.c'], unwind=100, timeout=120, cbmc_extra=FS,
+                  funcs=['beltKeyExpand', 'beltKeyExpand2'], bound='len 16/24/32 x {key_ == key, key 8/4 octets above/below key_, disjoint, adjacent}: %d placements, all key values' % len(inst)))
+    return obs
+
+
+def iroot(n, c):
+    """floor(n ** (1/c)) by exact integer bisection"""
+    lo, hi = 0, 1
+    while hi ** c <= n: hi *= 2
+    while hi - lo > 1:
+        mid = (lo + hi) // 2
+        if mid ** c <= n: lo = mid
+        else: hi = mid
+    return lo
+
+def fmt_thresholds(c):
+    """T(c,b) = floor(2^(64b/c)), b = 1.. until T >= 65536 (mod <= 65536 is the documented domain)"""
+    T = []; b = 1
+    while True:
+        t = iroot(1 << (64 * b), c)
+        assert t ** c <= 1 << (64 * b) < (t + 1) ** c
+        T.append(min(t, 0xFFFFFFFF)); b += 1
+        if t >= 65536: return T
+
+def fmt_obs(tier):
+    q = tier == 'quick'
+    H = 'harness/C01/fmt_b.c'
+    ZZ = ['src/math/zz/zz_add.c', 'src/math/zz/zz_mul.c', 'src/math/zz/zz_mod.c', 'src/math/zz/zz_etc.c', 'src/math/ww.c']
+    counts = [1, 2, 3, 8, 64, 150, 159, 160, 161, 299, 300] if q else list(range(1, 301))
+    obs = []
+    for c in counts:
+        T = fmt_thresholds(c)
+        args = '%d, (const u32[]){%s}, %d, 2, 65536' % (c, ', '.join('%uu' % t for t in T), len(T))
+        obs.append(Ob(name='c01_fmt_calcB_c%03d' % c, harness=H, instances=[('h_b_%d' % c, args)], srcs=CORE + ZZ, unwind=20, timeout=300,
+                      backend=['cadical', 'kissat'], funcs=['beltFMTCalcB', 'zzMulW', 'zzDiv', 'zzAdd2', 'zzSub2'],
+                      bound='count = %d (beltFMT count %d..%d), every mod in [2, 65536]; %d exact thresholds' % (c, max(2, 2 * c - 1), 2 * c, len(T))))
     return obs
 
 
 def obligations(tier):
     obs = []
+    obs += fmt_obs(tier)
     obs += block_obs(tier)
+    obs += lcl_obs(tier)
     return [o for o in obs if tier in o.tiers]
